@@ -4,6 +4,7 @@ package fsmworld
 
 import (
 	"fmt"
+	"strings"
 	"math/rand/v2"
 	"reflect"
 	"sort"
@@ -167,6 +168,19 @@ func (C04) execute(p *Plan, r *simkit.Run) *simkit.Violation {
 					continue
 				}
 				r.Hit("probe.session-ended-holding-keys")
+				// inside a transaction an earlier op may have released, re-locked, rewritten or deleted the key
+				// before the op that ended the session ran: then the key is no longer this session's to release
+				touched := false
+				if curStep.Op == "txn" && strings.HasPrefix(e.Desc, "txn") {
+					for _, o := range curStep.Ops {
+						if IsKV(o.Op) && (o.Key == k || (o.Op == "kv.delete-tree" && strings.HasPrefix(k, o.Key))) {
+							touched = true
+						}
+					}
+				}
+				if touched {
+					continue
+				}
 				a, ok := now.keys[k]
 				switch {
 				case sess.Behavior == structs.SessionKeysDelete && ok && a.CreateIndex == prev.keys[k].CreateIndex:
